@@ -130,6 +130,9 @@ type Knobs struct {
 	SkipGenesisInvariants bool `json:"skip_genesis_invariants,omitempty"` // --x-crisis-skip-assert-invariants
 	// ManyDenoms: that many extra denominations (sorting before the native one) in the bank supply
 	ManyDenoms int `json:"many_denoms,omitempty"`
+	// ManyRegs: that many WRKChains and BEACONs (ids 1..n, no records, an owner nobody holds the key
+	// of) already in the genesis document
+	ManyRegs int `json:"many_regs,omitempty"`
 }
 
 type GenOrder struct {
@@ -325,6 +328,11 @@ func BuildGenesis(k *Knobs, actors []*Actor) (json.RawMessage, []abci.ValidatorU
 	wg := wrkchaintypes.DefaultGenesisState()
 	wg.Params = wrkchaintypes.NewParams(k.Wrk.FeeReg, k.Wrk.FeeRec, k.Wrk.FeePur, k.Wrk.Denom, k.Wrk.DefLimit, k.Wrk.MaxLimit)
 	wg.StartingWrkchainId = k.StartWrk
+	for i := 1; i <= k.ManyRegs; i++ {
+		wg.RegisteredWrkchains = append(wg.RegisteredWrkchains, wrkchaintypes.WrkChainExport{
+			Wrkchain:     wrkchaintypes.WrkChain{WrkchainId: uint64(i), Moniker: fmt.Sprintf("gen-%d", i), Name: "from genesis", Genesis: fmt.Sprintf("G%X", i*31), Type: "geth", RegTime: uint64(GenesisTS) - 100, Owner: BigRegOwner().String()},
+			InStateLimit: k.Wrk.DefLimit})
+	}
 	if k.BigReg != nil && k.BigReg.Kind == "wrk" && k.StartWrk >= 2 {
 		n := k.BigReg.N
 		blocks := make(wrkchaintypes.WrkChainBlockGenesisExports, 0, n)
@@ -340,6 +348,11 @@ func BuildGenesis(k *Knobs, actors []*Actor) (json.RawMessage, []abci.ValidatorU
 	bg := beacontypes.DefaultGenesisState()
 	bg.Params = beacontypes.NewParams(k.Beacon.FeeReg, k.Beacon.FeeRec, k.Beacon.FeePur, k.Beacon.Denom, k.Beacon.DefLimit, k.Beacon.MaxLimit)
 	bg.StartingBeaconId = k.StartBeacon
+	for i := 1; i <= k.ManyRegs; i++ {
+		bg.RegisteredBeacons = append(bg.RegisteredBeacons, beacontypes.BeaconExport{
+			Beacon:       beacontypes.Beacon{BeaconId: uint64(i), Moniker: fmt.Sprintf("gen-%d", i), Name: "from genesis", RegTime: uint64(GenesisTS) - 100, Owner: BigRegOwner().String()},
+			InStateLimit: k.Beacon.DefLimit})
+	}
 	if k.BigReg != nil && k.BigReg.Kind == "bcn" && k.StartBeacon >= 2 {
 		n := k.BigReg.N
 		ts := make(beacontypes.BeaconTimestampGenesisExports, 0, n)
